@@ -1516,9 +1516,14 @@ func (pool *TxPool) demoteUnexecutables() {
 		if pool.locals.contains(addr) {
 			localGauge.Dec(int64(len(olds) + len(drops) + len(invalids)))
 		}
-		// If there's a gap in front, alert (should never happen) and postpone all transactions
-		if list.Len() > 0 && list.txs.Get(nonce) == nil {
-			gapped := list.Cap(0)
+		// If there's a gap (in front, or further up after a reorg handed back only some of
+		// the account's transactions), alert and postpone all transactions above it
+		run := 0
+		for list.txs.Get(nonce+uint64(run)) != nil {
+			run++
+		}
+		if run < list.Len() {
+			gapped := list.Cap(run)
 			for _, tx := range gapped {
 				hash := tx.Hash()
 				log.Error("Demoting invalidated transaction", "hash", hash)
